@@ -7,3 +7,4 @@ package crypto
 //@ -- Hash.String is hex.EncodeToString(h[:]): a deterministic function of the value, no effects (ASSUMED: external hex encoder).
 //@ assume func (h Hash) String
 //@   pure
+//@   ensures [hex-length] len(result) == 64 -- hex.EncodeToString of 32 bytes (used by C16: storage.writeWithdrawalClaim tests len(snap) != 64)
